@@ -102,7 +102,7 @@ def main():
                 diffs += 1
                 if diffs <= 5:
                     R.extra.setdefault('correspondence_diffs', []).append({'case': line, 'input': b.decode('utf-8', 'replace'), 'impl': io, 'model': mod[line]})
-        if problems and nviol < 10:
+        if problems and nviol < 300:
             nviol += 1
             R.violation({'kind': 'authority accessors do not return the RFC 3986 section 3.2 decomposition', 'input': b.decode('utf-8', 'replace'),
                          'input_hex': b.hex(), 'problems': problems, 'implementation': io, 'case': line,
